@@ -20,6 +20,8 @@ def build_wf(n, links, rem, rev=False):
         sp["tasks"][1]["progress"] = 1.0  # a non-head task that is FINISHED from the start
     if rev == "order":
         sp["order"] = list(range(n))[::-1]  # task_list not in precedence order  # the sets inside the PERT passes are then iterated in the opposite order
+    if rev == "extend-gen":
+        sp["link_api"] = "extend-gen"
     m = S.build(sp)
     if rev == "prefinished" and n > 1:
         pass  # remaining work of the pre-finished task is 0; workflow.initialize() puts it into FINISHED
@@ -295,6 +297,7 @@ def hist_items(tier):
                         out.append((n, links, rem0, 1, "auto-rate"))
                         out.append((n, links, rem0, 2, "prefinished"))
                         out.append((n, links, rem0, 1, "loaded"))
+                        out.append((n, links, rem0, 1, "extend-gen"))
                         out.append((n, links, rem0, 1, "late-append"))
                         for rot in range(len(links)):
                             out.append((n, links[rot:] + links[:rot], rem0, 1, "late-link"))  # every link takes its turn as the one added late
